@@ -96,7 +96,7 @@ def roundtrip(chk, repo, d, eq):
     for nm, ref in (('R_use', R), ('rho_use', rho), ('w_use', w), ('G_use', X.atom('Gconst', 'pos'))):
         eq('R03.1', f're-dimensionalise restores the scalar {nm}', fr0.vars[nm], ref, md.where(fr_))
     # radial-function re-dimensionalisation: slot k gets the unit of y_k
-    nsl, nsol = 2, 2
+    nsl, nsol = 3, 2
     buf = Arr('radial', default=lambda k: X.atom(f'ynd{k}', 'complex'))
     orig = {k: buf.get(k) for k in range(nsl * 6 * nsol)}
     for k, v in orig.items(): buf.store[k] = v
@@ -349,7 +349,7 @@ def layout(chk, repo, d, eq):
     # decided by interpretation, independent of how the function walks the buffer: on a (3 slices x 3 types) buffer exactly the elements slice*(6*3) + type*6 + y are
     # rescaled, each by the factor of y (the factors themselves are R03.1's business)
     bufr = Arr('radial', default=lambda k: X.atom(f'ynd{k}', 'complex'))
-    nsl_, nty_ = 3, 3
+    nsl_, nty_ = 3, 2      # deliberately different: a transposed stride must not address the same set of elements
     orig_ = {k: bufr.get(k) for k in range(nsl_ * 6 * nty_)}
     for k, v in orig_.items(): bufr.store[k] = v
     Rr = X.atom('Rmean', 'pos'); rhor = X.atom('rho_bulk', 'pos')
